@@ -943,6 +943,518 @@ theorem StringIntLinkedMap_setNull_interp (m : LMap K V) (n : Nat) : runC n Gen.
 theorem StringLongLinkedMap_setNull_interp (m : LMap K V) (n : Nat) : runC n Gen.C09IR.StringLongLinkedMap_setNull m = some m := by
   rw [show Gen.C09IR.StringLongLinkedMap_setNull = canonSetNull from by decide]; exact canonSetNull_correct m n
 
+
+/-! ### one-line accessors: Size / IsEmpty / IsFull / first and last key and value, statement by statement -/
+
+/-- LinkedMap.Size / IsEmpty / IsFull: `return this.count`, `return this.count == 0`, `return this.max > 0 && this.max <= this.count` -/
+theorem LinkedMap_size_interp (d : Desc K V) (hash : K → Nat) (thr : Nat → Nat) (m : LMap K V) :
+    runA hash Gen.C09IR.LinkedMap_size m = some (LMap.step hash thr d m .size).2 ∧
+    runA hash Gen.C09IR.LinkedMap_isEmpty m = some (LMap.step hash thr d m .isEmpty).2 ∧
+    runA hash Gen.C09IR.LinkedMap_isFull m = some (LMap.step hash thr d m .isFull).2 := by
+  rw [show Gen.C09IR.LinkedMap_size = [ASt.retCount] from by decide, show Gen.C09IR.LinkedMap_isEmpty = [ASt.retCountZero] from by decide,
+    show Gen.C09IR.LinkedMap_isFull = [ASt.retIsFull] from by decide]
+  exact canonSize_correct d hash thr m
+
+/-- LinkedMap: first / last key and value — `return this.header.link_X.key` / `.value` (behind `if this.count == 0 { return NONE }` where the source has it);
+    in every state satisfying the invariant (`count` = length of the order list) they are the model's accessors -/
+theorem LinkedMap_ends_interp (d : Desc K V) (hash : K → Nat) (thr : Nat → Nat) (m : LMap K V) (hc : m.count = m.order.length) :
+    runA hash Gen.C09IR.LinkedMap_firstKey m = some (LMap.step hash thr d m .firstKey).2 ∧
+    runA hash Gen.C09IR.LinkedMap_lastKey m = some (LMap.step hash thr d m .lastKey).2 ∧
+    runA hash Gen.C09IR.LinkedMap_firstValue m = some (LMap.step hash thr d m .firstValue).2 ∧
+    runA hash Gen.C09IR.LinkedMap_lastValue m = some (LMap.step hash thr d m .lastValue).2 := by
+  have hk := canonEnd_correct d hash thr false m hc
+  rw [show Gen.C09IR.LinkedMap_firstKey = canonEnd false (.retEndKey .front) from by decide,
+    show Gen.C09IR.LinkedMap_lastKey = canonEnd false (.retEndKey .back) from by decide]
+  first
+  | (rw [show Gen.C09IR.LinkedMap_firstValue = canonEnd false (.retEndValue .front) from by decide,
+      show Gen.C09IR.LinkedMap_lastValue = canonEnd false (.retEndValue .back) from by decide]
+     exact ⟨hk.1, hk.2.1, hk.2.2.1, hk.2.2.2⟩)
+  | (have hg := canonEnd_correct d hash thr true m hc
+     rw [show Gen.C09IR.LinkedMap_firstValue = canonEnd true (.retEndValue .front) from by decide,
+      show Gen.C09IR.LinkedMap_lastValue = canonEnd true (.retEndValue .back) from by decide]
+     exact ⟨hk.1, hk.2.1, hg.2.2.1, hg.2.2.2⟩)
+
+/-- IntKeyLinkedMap.Size / IsEmpty / IsFull: `return this.count`, `return this.count == 0`, `return this.max > 0 && this.max <= this.count` -/
+theorem IntKeyLinkedMap_size_interp (d : Desc K V) (hash : K → Nat) (thr : Nat → Nat) (m : LMap K V) :
+    runA hash Gen.C09IR.IntKeyLinkedMap_size m = some (LMap.step hash thr d m .size).2 ∧
+    runA hash Gen.C09IR.IntKeyLinkedMap_isEmpty m = some (LMap.step hash thr d m .isEmpty).2 ∧
+    runA hash Gen.C09IR.IntKeyLinkedMap_isFull m = some (LMap.step hash thr d m .isFull).2 := by
+  rw [show Gen.C09IR.IntKeyLinkedMap_size = [ASt.retCount] from by decide, show Gen.C09IR.IntKeyLinkedMap_isEmpty = [ASt.retCountZero] from by decide,
+    show Gen.C09IR.IntKeyLinkedMap_isFull = [ASt.retIsFull] from by decide]
+  exact canonSize_correct d hash thr m
+
+/-- IntKeyLinkedMap: first / last key and value — `return this.header.link_X.key` / `.value` (behind `if this.count == 0 { return NONE }` where the source has it);
+    in every state satisfying the invariant (`count` = length of the order list) they are the model's accessors -/
+theorem IntKeyLinkedMap_ends_interp (d : Desc K V) (hash : K → Nat) (thr : Nat → Nat) (m : LMap K V) (hc : m.count = m.order.length) :
+    runA hash Gen.C09IR.IntKeyLinkedMap_firstKey m = some (LMap.step hash thr d m .firstKey).2 ∧
+    runA hash Gen.C09IR.IntKeyLinkedMap_lastKey m = some (LMap.step hash thr d m .lastKey).2 ∧
+    runA hash Gen.C09IR.IntKeyLinkedMap_firstValue m = some (LMap.step hash thr d m .firstValue).2 ∧
+    runA hash Gen.C09IR.IntKeyLinkedMap_lastValue m = some (LMap.step hash thr d m .lastValue).2 := by
+  have hk := canonEnd_correct d hash thr false m hc
+  rw [show Gen.C09IR.IntKeyLinkedMap_firstKey = canonEnd false (.retEndKey .front) from by decide,
+    show Gen.C09IR.IntKeyLinkedMap_lastKey = canonEnd false (.retEndKey .back) from by decide]
+  first
+  | (rw [show Gen.C09IR.IntKeyLinkedMap_firstValue = canonEnd false (.retEndValue .front) from by decide,
+      show Gen.C09IR.IntKeyLinkedMap_lastValue = canonEnd false (.retEndValue .back) from by decide]
+     exact ⟨hk.1, hk.2.1, hk.2.2.1, hk.2.2.2⟩)
+  | (have hg := canonEnd_correct d hash thr true m hc
+     rw [show Gen.C09IR.IntKeyLinkedMap_firstValue = canonEnd true (.retEndValue .front) from by decide,
+      show Gen.C09IR.IntKeyLinkedMap_lastValue = canonEnd true (.retEndValue .back) from by decide]
+     exact ⟨hk.1, hk.2.1, hg.2.2.1, hg.2.2.2⟩)
+
+/-- LongKeyLinkedMap.Size / IsEmpty / IsFull: `return this.count`, `return this.count == 0`, `return this.max > 0 && this.max <= this.count` -/
+theorem LongKeyLinkedMap_size_interp (d : Desc K V) (hash : K → Nat) (thr : Nat → Nat) (m : LMap K V) :
+    runA hash Gen.C09IR.LongKeyLinkedMap_size m = some (LMap.step hash thr d m .size).2 ∧
+    runA hash Gen.C09IR.LongKeyLinkedMap_isEmpty m = some (LMap.step hash thr d m .isEmpty).2 ∧
+    runA hash Gen.C09IR.LongKeyLinkedMap_isFull m = some (LMap.step hash thr d m .isFull).2 := by
+  rw [show Gen.C09IR.LongKeyLinkedMap_size = [ASt.retCount] from by decide, show Gen.C09IR.LongKeyLinkedMap_isEmpty = [ASt.retCountZero] from by decide,
+    show Gen.C09IR.LongKeyLinkedMap_isFull = [ASt.retIsFull] from by decide]
+  exact canonSize_correct d hash thr m
+
+/-- LongKeyLinkedMap: first / last key and value — `return this.header.link_X.key` / `.value` (behind `if this.count == 0 { return NONE }` where the source has it);
+    in every state satisfying the invariant (`count` = length of the order list) they are the model's accessors -/
+theorem LongKeyLinkedMap_ends_interp (d : Desc K V) (hash : K → Nat) (thr : Nat → Nat) (m : LMap K V) (hc : m.count = m.order.length) :
+    runA hash Gen.C09IR.LongKeyLinkedMap_firstKey m = some (LMap.step hash thr d m .firstKey).2 ∧
+    runA hash Gen.C09IR.LongKeyLinkedMap_lastKey m = some (LMap.step hash thr d m .lastKey).2 ∧
+    runA hash Gen.C09IR.LongKeyLinkedMap_firstValue m = some (LMap.step hash thr d m .firstValue).2 ∧
+    runA hash Gen.C09IR.LongKeyLinkedMap_lastValue m = some (LMap.step hash thr d m .lastValue).2 := by
+  have hk := canonEnd_correct d hash thr false m hc
+  rw [show Gen.C09IR.LongKeyLinkedMap_firstKey = canonEnd false (.retEndKey .front) from by decide,
+    show Gen.C09IR.LongKeyLinkedMap_lastKey = canonEnd false (.retEndKey .back) from by decide]
+  first
+  | (rw [show Gen.C09IR.LongKeyLinkedMap_firstValue = canonEnd false (.retEndValue .front) from by decide,
+      show Gen.C09IR.LongKeyLinkedMap_lastValue = canonEnd false (.retEndValue .back) from by decide]
+     exact ⟨hk.1, hk.2.1, hk.2.2.1, hk.2.2.2⟩)
+  | (have hg := canonEnd_correct d hash thr true m hc
+     rw [show Gen.C09IR.LongKeyLinkedMap_firstValue = canonEnd true (.retEndValue .front) from by decide,
+      show Gen.C09IR.LongKeyLinkedMap_lastValue = canonEnd true (.retEndValue .back) from by decide]
+     exact ⟨hk.1, hk.2.1, hg.2.2.1, hg.2.2.2⟩)
+
+/-- StringKeyLinkedMap.Size / IsEmpty / IsFull: `return this.count`, `return this.count == 0`, `return this.max > 0 && this.max <= this.count` -/
+theorem StringKeyLinkedMap_size_interp (d : Desc K V) (hash : K → Nat) (thr : Nat → Nat) (m : LMap K V) :
+    runA hash Gen.C09IR.StringKeyLinkedMap_size m = some (LMap.step hash thr d m .size).2 ∧
+    runA hash Gen.C09IR.StringKeyLinkedMap_isEmpty m = some (LMap.step hash thr d m .isEmpty).2 ∧
+    runA hash Gen.C09IR.StringKeyLinkedMap_isFull m = some (LMap.step hash thr d m .isFull).2 := by
+  rw [show Gen.C09IR.StringKeyLinkedMap_size = [ASt.retCount] from by decide, show Gen.C09IR.StringKeyLinkedMap_isEmpty = [ASt.retCountZero] from by decide,
+    show Gen.C09IR.StringKeyLinkedMap_isFull = [ASt.retIsFull] from by decide]
+  exact canonSize_correct d hash thr m
+
+/-- StringKeyLinkedMap: first / last key and value — `return this.header.link_X.key` / `.value` (behind `if this.count == 0 { return NONE }` where the source has it);
+    in every state satisfying the invariant (`count` = length of the order list) they are the model's accessors -/
+theorem StringKeyLinkedMap_ends_interp (d : Desc K V) (hash : K → Nat) (thr : Nat → Nat) (m : LMap K V) (hc : m.count = m.order.length) :
+    runA hash Gen.C09IR.StringKeyLinkedMap_firstKey m = some (LMap.step hash thr d m .firstKey).2 ∧
+    runA hash Gen.C09IR.StringKeyLinkedMap_lastKey m = some (LMap.step hash thr d m .lastKey).2 ∧
+    runA hash Gen.C09IR.StringKeyLinkedMap_firstValue m = some (LMap.step hash thr d m .firstValue).2 ∧
+    runA hash Gen.C09IR.StringKeyLinkedMap_lastValue m = some (LMap.step hash thr d m .lastValue).2 := by
+  have hk := canonEnd_correct d hash thr false m hc
+  rw [show Gen.C09IR.StringKeyLinkedMap_firstKey = canonEnd false (.retEndKey .front) from by decide,
+    show Gen.C09IR.StringKeyLinkedMap_lastKey = canonEnd false (.retEndKey .back) from by decide]
+  first
+  | (rw [show Gen.C09IR.StringKeyLinkedMap_firstValue = canonEnd false (.retEndValue .front) from by decide,
+      show Gen.C09IR.StringKeyLinkedMap_lastValue = canonEnd false (.retEndValue .back) from by decide]
+     exact ⟨hk.1, hk.2.1, hk.2.2.1, hk.2.2.2⟩)
+  | (have hg := canonEnd_correct d hash thr true m hc
+     rw [show Gen.C09IR.StringKeyLinkedMap_firstValue = canonEnd true (.retEndValue .front) from by decide,
+      show Gen.C09IR.StringKeyLinkedMap_lastValue = canonEnd true (.retEndValue .back) from by decide]
+     exact ⟨hk.1, hk.2.1, hg.2.2.1, hg.2.2.2⟩)
+
+/-- IntIntLinkedMap.Size / IsEmpty / IsFull: `return this.count`, `return this.count == 0`, `return this.max > 0 && this.max <= this.count` -/
+theorem IntIntLinkedMap_size_interp (d : Desc K V) (hash : K → Nat) (thr : Nat → Nat) (m : LMap K V) :
+    runA hash Gen.C09IR.IntIntLinkedMap_size m = some (LMap.step hash thr d m .size).2 ∧
+    runA hash Gen.C09IR.IntIntLinkedMap_isEmpty m = some (LMap.step hash thr d m .isEmpty).2 ∧
+    runA hash Gen.C09IR.IntIntLinkedMap_isFull m = some (LMap.step hash thr d m .isFull).2 := by
+  rw [show Gen.C09IR.IntIntLinkedMap_size = [ASt.retCount] from by decide, show Gen.C09IR.IntIntLinkedMap_isEmpty = [ASt.retCountZero] from by decide,
+    show Gen.C09IR.IntIntLinkedMap_isFull = [ASt.retIsFull] from by decide]
+  exact canonSize_correct d hash thr m
+
+/-- IntIntLinkedMap: first / last key and value — `return this.header.link_X.key` / `.value` (behind `if this.count == 0 { return NONE }` where the source has it);
+    in every state satisfying the invariant (`count` = length of the order list) they are the model's accessors -/
+theorem IntIntLinkedMap_ends_interp (d : Desc K V) (hash : K → Nat) (thr : Nat → Nat) (m : LMap K V) (hc : m.count = m.order.length) :
+    runA hash Gen.C09IR.IntIntLinkedMap_firstKey m = some (LMap.step hash thr d m .firstKey).2 ∧
+    runA hash Gen.C09IR.IntIntLinkedMap_lastKey m = some (LMap.step hash thr d m .lastKey).2 ∧
+    runA hash Gen.C09IR.IntIntLinkedMap_firstValue m = some (LMap.step hash thr d m .firstValue).2 ∧
+    runA hash Gen.C09IR.IntIntLinkedMap_lastValue m = some (LMap.step hash thr d m .lastValue).2 := by
+  have hk := canonEnd_correct d hash thr false m hc
+  rw [show Gen.C09IR.IntIntLinkedMap_firstKey = canonEnd false (.retEndKey .front) from by decide,
+    show Gen.C09IR.IntIntLinkedMap_lastKey = canonEnd false (.retEndKey .back) from by decide]
+  first
+  | (rw [show Gen.C09IR.IntIntLinkedMap_firstValue = canonEnd false (.retEndValue .front) from by decide,
+      show Gen.C09IR.IntIntLinkedMap_lastValue = canonEnd false (.retEndValue .back) from by decide]
+     exact ⟨hk.1, hk.2.1, hk.2.2.1, hk.2.2.2⟩)
+  | (have hg := canonEnd_correct d hash thr true m hc
+     rw [show Gen.C09IR.IntIntLinkedMap_firstValue = canonEnd true (.retEndValue .front) from by decide,
+      show Gen.C09IR.IntIntLinkedMap_lastValue = canonEnd true (.retEndValue .back) from by decide]
+     exact ⟨hk.1, hk.2.1, hg.2.2.1, hg.2.2.2⟩)
+
+/-- IntFloatLinkedMap.Size / IsEmpty / IsFull: `return this.count`, `return this.count == 0`, `return this.max > 0 && this.max <= this.count` -/
+theorem IntFloatLinkedMap_size_interp (d : Desc K V) (hash : K → Nat) (thr : Nat → Nat) (m : LMap K V) :
+    runA hash Gen.C09IR.IntFloatLinkedMap_size m = some (LMap.step hash thr d m .size).2 ∧
+    runA hash Gen.C09IR.IntFloatLinkedMap_isEmpty m = some (LMap.step hash thr d m .isEmpty).2 ∧
+    runA hash Gen.C09IR.IntFloatLinkedMap_isFull m = some (LMap.step hash thr d m .isFull).2 := by
+  rw [show Gen.C09IR.IntFloatLinkedMap_size = [ASt.retCount] from by decide, show Gen.C09IR.IntFloatLinkedMap_isEmpty = [ASt.retCountZero] from by decide,
+    show Gen.C09IR.IntFloatLinkedMap_isFull = [ASt.retIsFull] from by decide]
+  exact canonSize_correct d hash thr m
+
+/-- IntFloatLinkedMap: first / last key and value — `return this.header.link_X.key` / `.value` (behind `if this.count == 0 { return NONE }` where the source has it);
+    in every state satisfying the invariant (`count` = length of the order list) they are the model's accessors -/
+theorem IntFloatLinkedMap_ends_interp (d : Desc K V) (hash : K → Nat) (thr : Nat → Nat) (m : LMap K V) (hc : m.count = m.order.length) :
+    runA hash Gen.C09IR.IntFloatLinkedMap_firstKey m = some (LMap.step hash thr d m .firstKey).2 ∧
+    runA hash Gen.C09IR.IntFloatLinkedMap_lastKey m = some (LMap.step hash thr d m .lastKey).2 ∧
+    runA hash Gen.C09IR.IntFloatLinkedMap_firstValue m = some (LMap.step hash thr d m .firstValue).2 ∧
+    runA hash Gen.C09IR.IntFloatLinkedMap_lastValue m = some (LMap.step hash thr d m .lastValue).2 := by
+  have hk := canonEnd_correct d hash thr false m hc
+  rw [show Gen.C09IR.IntFloatLinkedMap_firstKey = canonEnd false (.retEndKey .front) from by decide,
+    show Gen.C09IR.IntFloatLinkedMap_lastKey = canonEnd false (.retEndKey .back) from by decide]
+  first
+  | (rw [show Gen.C09IR.IntFloatLinkedMap_firstValue = canonEnd false (.retEndValue .front) from by decide,
+      show Gen.C09IR.IntFloatLinkedMap_lastValue = canonEnd false (.retEndValue .back) from by decide]
+     exact ⟨hk.1, hk.2.1, hk.2.2.1, hk.2.2.2⟩)
+  | (have hg := canonEnd_correct d hash thr true m hc
+     rw [show Gen.C09IR.IntFloatLinkedMap_firstValue = canonEnd true (.retEndValue .front) from by decide,
+      show Gen.C09IR.IntFloatLinkedMap_lastValue = canonEnd true (.retEndValue .back) from by decide]
+     exact ⟨hk.1, hk.2.1, hg.2.2.1, hg.2.2.2⟩)
+
+/-- LongFloatLinkedMap.Size / IsEmpty / IsFull: `return this.count`, `return this.count == 0`, `return this.max > 0 && this.max <= this.count` -/
+theorem LongFloatLinkedMap_size_interp (d : Desc K V) (hash : K → Nat) (thr : Nat → Nat) (m : LMap K V) :
+    runA hash Gen.C09IR.LongFloatLinkedMap_size m = some (LMap.step hash thr d m .size).2 ∧
+    runA hash Gen.C09IR.LongFloatLinkedMap_isEmpty m = some (LMap.step hash thr d m .isEmpty).2 ∧
+    runA hash Gen.C09IR.LongFloatLinkedMap_isFull m = some (LMap.step hash thr d m .isFull).2 := by
+  rw [show Gen.C09IR.LongFloatLinkedMap_size = [ASt.retCount] from by decide, show Gen.C09IR.LongFloatLinkedMap_isEmpty = [ASt.retCountZero] from by decide,
+    show Gen.C09IR.LongFloatLinkedMap_isFull = [ASt.retIsFull] from by decide]
+  exact canonSize_correct d hash thr m
+
+/-- LongFloatLinkedMap: first / last key and value — `return this.header.link_X.key` / `.value` (behind `if this.count == 0 { return NONE }` where the source has it);
+    in every state satisfying the invariant (`count` = length of the order list) they are the model's accessors -/
+theorem LongFloatLinkedMap_ends_interp (d : Desc K V) (hash : K → Nat) (thr : Nat → Nat) (m : LMap K V) (hc : m.count = m.order.length) :
+    runA hash Gen.C09IR.LongFloatLinkedMap_firstKey m = some (LMap.step hash thr d m .firstKey).2 ∧
+    runA hash Gen.C09IR.LongFloatLinkedMap_lastKey m = some (LMap.step hash thr d m .lastKey).2 ∧
+    runA hash Gen.C09IR.LongFloatLinkedMap_firstValue m = some (LMap.step hash thr d m .firstValue).2 ∧
+    runA hash Gen.C09IR.LongFloatLinkedMap_lastValue m = some (LMap.step hash thr d m .lastValue).2 := by
+  have hk := canonEnd_correct d hash thr false m hc
+  rw [show Gen.C09IR.LongFloatLinkedMap_firstKey = canonEnd false (.retEndKey .front) from by decide,
+    show Gen.C09IR.LongFloatLinkedMap_lastKey = canonEnd false (.retEndKey .back) from by decide]
+  first
+  | (rw [show Gen.C09IR.LongFloatLinkedMap_firstValue = canonEnd false (.retEndValue .front) from by decide,
+      show Gen.C09IR.LongFloatLinkedMap_lastValue = canonEnd false (.retEndValue .back) from by decide]
+     exact ⟨hk.1, hk.2.1, hk.2.2.1, hk.2.2.2⟩)
+  | (have hg := canonEnd_correct d hash thr true m hc
+     rw [show Gen.C09IR.LongFloatLinkedMap_firstValue = canonEnd true (.retEndValue .front) from by decide,
+      show Gen.C09IR.LongFloatLinkedMap_lastValue = canonEnd true (.retEndValue .back) from by decide]
+     exact ⟨hk.1, hk.2.1, hg.2.2.1, hg.2.2.2⟩)
+
+/-- LongLongLinkedMap.Size / IsEmpty / IsFull: `return this.count`, `return this.count == 0`, `return this.max > 0 && this.max <= this.count` -/
+theorem LongLongLinkedMap_size_interp (d : Desc K V) (hash : K → Nat) (thr : Nat → Nat) (m : LMap K V) :
+    runA hash Gen.C09IR.LongLongLinkedMap_size m = some (LMap.step hash thr d m .size).2 ∧
+    runA hash Gen.C09IR.LongLongLinkedMap_isEmpty m = some (LMap.step hash thr d m .isEmpty).2 ∧
+    runA hash Gen.C09IR.LongLongLinkedMap_isFull m = some (LMap.step hash thr d m .isFull).2 := by
+  rw [show Gen.C09IR.LongLongLinkedMap_size = [ASt.retCount] from by decide, show Gen.C09IR.LongLongLinkedMap_isEmpty = [ASt.retCountZero] from by decide,
+    show Gen.C09IR.LongLongLinkedMap_isFull = [ASt.retIsFull] from by decide]
+  exact canonSize_correct d hash thr m
+
+/-- LongLongLinkedMap: first / last key and value — `return this.header.link_X.key` / `.value` (behind `if this.count == 0 { return NONE }` where the source has it);
+    in every state satisfying the invariant (`count` = length of the order list) they are the model's accessors -/
+theorem LongLongLinkedMap_ends_interp (d : Desc K V) (hash : K → Nat) (thr : Nat → Nat) (m : LMap K V) (hc : m.count = m.order.length) :
+    runA hash Gen.C09IR.LongLongLinkedMap_firstKey m = some (LMap.step hash thr d m .firstKey).2 ∧
+    runA hash Gen.C09IR.LongLongLinkedMap_lastKey m = some (LMap.step hash thr d m .lastKey).2 ∧
+    runA hash Gen.C09IR.LongLongLinkedMap_firstValue m = some (LMap.step hash thr d m .firstValue).2 ∧
+    runA hash Gen.C09IR.LongLongLinkedMap_lastValue m = some (LMap.step hash thr d m .lastValue).2 := by
+  have hk := canonEnd_correct d hash thr false m hc
+  rw [show Gen.C09IR.LongLongLinkedMap_firstKey = canonEnd false (.retEndKey .front) from by decide,
+    show Gen.C09IR.LongLongLinkedMap_lastKey = canonEnd false (.retEndKey .back) from by decide]
+  first
+  | (rw [show Gen.C09IR.LongLongLinkedMap_firstValue = canonEnd false (.retEndValue .front) from by decide,
+      show Gen.C09IR.LongLongLinkedMap_lastValue = canonEnd false (.retEndValue .back) from by decide]
+     exact ⟨hk.1, hk.2.1, hk.2.2.1, hk.2.2.2⟩)
+  | (have hg := canonEnd_correct d hash thr true m hc
+     rw [show Gen.C09IR.LongLongLinkedMap_firstValue = canonEnd true (.retEndValue .front) from by decide,
+      show Gen.C09IR.LongLongLinkedMap_lastValue = canonEnd true (.retEndValue .back) from by decide]
+     exact ⟨hk.1, hk.2.1, hg.2.2.1, hg.2.2.2⟩)
+
+/-- StringIntLinkedMap.Size / IsEmpty / IsFull: `return this.count`, `return this.count == 0`, `return this.max > 0 && this.max <= this.count` -/
+theorem StringIntLinkedMap_size_interp (d : Desc K V) (hash : K → Nat) (thr : Nat → Nat) (m : LMap K V) :
+    runA hash Gen.C09IR.StringIntLinkedMap_size m = some (LMap.step hash thr d m .size).2 ∧
+    runA hash Gen.C09IR.StringIntLinkedMap_isEmpty m = some (LMap.step hash thr d m .isEmpty).2 ∧
+    runA hash Gen.C09IR.StringIntLinkedMap_isFull m = some (LMap.step hash thr d m .isFull).2 := by
+  rw [show Gen.C09IR.StringIntLinkedMap_size = [ASt.retCount] from by decide, show Gen.C09IR.StringIntLinkedMap_isEmpty = [ASt.retCountZero] from by decide,
+    show Gen.C09IR.StringIntLinkedMap_isFull = [ASt.retIsFull] from by decide]
+  exact canonSize_correct d hash thr m
+
+/-- StringIntLinkedMap: first / last key and value — `return this.header.link_X.key` / `.value` (behind `if this.count == 0 { return NONE }` where the source has it);
+    in every state satisfying the invariant (`count` = length of the order list) they are the model's accessors -/
+theorem StringIntLinkedMap_ends_interp (d : Desc K V) (hash : K → Nat) (thr : Nat → Nat) (m : LMap K V) (hc : m.count = m.order.length) :
+    runA hash Gen.C09IR.StringIntLinkedMap_firstKey m = some (LMap.step hash thr d m .firstKey).2 ∧
+    runA hash Gen.C09IR.StringIntLinkedMap_lastKey m = some (LMap.step hash thr d m .lastKey).2 ∧
+    runA hash Gen.C09IR.StringIntLinkedMap_firstValue m = some (LMap.step hash thr d m .firstValue).2 ∧
+    runA hash Gen.C09IR.StringIntLinkedMap_lastValue m = some (LMap.step hash thr d m .lastValue).2 := by
+  have hk := canonEnd_correct d hash thr false m hc
+  rw [show Gen.C09IR.StringIntLinkedMap_firstKey = canonEnd false (.retEndKey .front) from by decide,
+    show Gen.C09IR.StringIntLinkedMap_lastKey = canonEnd false (.retEndKey .back) from by decide]
+  first
+  | (rw [show Gen.C09IR.StringIntLinkedMap_firstValue = canonEnd false (.retEndValue .front) from by decide,
+      show Gen.C09IR.StringIntLinkedMap_lastValue = canonEnd false (.retEndValue .back) from by decide]
+     exact ⟨hk.1, hk.2.1, hk.2.2.1, hk.2.2.2⟩)
+  | (have hg := canonEnd_correct d hash thr true m hc
+     rw [show Gen.C09IR.StringIntLinkedMap_firstValue = canonEnd true (.retEndValue .front) from by decide,
+      show Gen.C09IR.StringIntLinkedMap_lastValue = canonEnd true (.retEndValue .back) from by decide]
+     exact ⟨hk.1, hk.2.1, hg.2.2.1, hg.2.2.2⟩)
+
+/-- StringLongLinkedMap.Size / IsEmpty / IsFull: `return this.count`, `return this.count == 0`, `return this.max > 0 && this.max <= this.count` -/
+theorem StringLongLinkedMap_size_interp (d : Desc K V) (hash : K → Nat) (thr : Nat → Nat) (m : LMap K V) :
+    runA hash Gen.C09IR.StringLongLinkedMap_size m = some (LMap.step hash thr d m .size).2 ∧
+    runA hash Gen.C09IR.StringLongLinkedMap_isEmpty m = some (LMap.step hash thr d m .isEmpty).2 ∧
+    runA hash Gen.C09IR.StringLongLinkedMap_isFull m = some (LMap.step hash thr d m .isFull).2 := by
+  rw [show Gen.C09IR.StringLongLinkedMap_size = [ASt.retCount] from by decide, show Gen.C09IR.StringLongLinkedMap_isEmpty = [ASt.retCountZero] from by decide,
+    show Gen.C09IR.StringLongLinkedMap_isFull = [ASt.retIsFull] from by decide]
+  exact canonSize_correct d hash thr m
+
+/-- StringLongLinkedMap: first / last key and value — `return this.header.link_X.key` / `.value` (behind `if this.count == 0 { return NONE }` where the source has it);
+    in every state satisfying the invariant (`count` = length of the order list) they are the model's accessors -/
+theorem StringLongLinkedMap_ends_interp (d : Desc K V) (hash : K → Nat) (thr : Nat → Nat) (m : LMap K V) (hc : m.count = m.order.length) :
+    runA hash Gen.C09IR.StringLongLinkedMap_firstKey m = some (LMap.step hash thr d m .firstKey).2 ∧
+    runA hash Gen.C09IR.StringLongLinkedMap_lastKey m = some (LMap.step hash thr d m .lastKey).2 ∧
+    runA hash Gen.C09IR.StringLongLinkedMap_firstValue m = some (LMap.step hash thr d m .firstValue).2 ∧
+    runA hash Gen.C09IR.StringLongLinkedMap_lastValue m = some (LMap.step hash thr d m .lastValue).2 := by
+  have hk := canonEnd_correct d hash thr false m hc
+  rw [show Gen.C09IR.StringLongLinkedMap_firstKey = canonEnd false (.retEndKey .front) from by decide,
+    show Gen.C09IR.StringLongLinkedMap_lastKey = canonEnd false (.retEndKey .back) from by decide]
+  first
+  | (rw [show Gen.C09IR.StringLongLinkedMap_firstValue = canonEnd false (.retEndValue .front) from by decide,
+      show Gen.C09IR.StringLongLinkedMap_lastValue = canonEnd false (.retEndValue .back) from by decide]
+     exact ⟨hk.1, hk.2.1, hk.2.2.1, hk.2.2.2⟩)
+  | (have hg := canonEnd_correct d hash thr true m hc
+     rw [show Gen.C09IR.StringLongLinkedMap_firstValue = canonEnd true (.retEndValue .front) from by decide,
+      show Gen.C09IR.StringLongLinkedMap_lastValue = canonEnd true (.retEndValue .back) from by decide]
+     exact ⟨hk.1, hk.2.1, hg.2.2.1, hg.2.2.2⟩)
+
+/-- LinkedSet.Size / IsEmpty / IsFull: `return this.count`, `return this.count == 0`, `return this.max > 0 && this.max <= this.count` -/
+theorem LinkedSet_size_interp (d : Desc K V) (hash : K → Nat) (thr : Nat → Nat) (m : LMap K V) :
+    runA hash Gen.C09IR.LinkedSet_size m = some (LMap.step hash thr d m .size).2 ∧
+    runA hash Gen.C09IR.LinkedSet_isEmpty m = some (LMap.step hash thr d m .isEmpty).2 ∧
+    runA hash Gen.C09IR.LinkedSet_isFull m = some (LMap.step hash thr d m .isFull).2 := by
+  rw [show Gen.C09IR.LinkedSet_size = [ASt.retCount] from by decide, show Gen.C09IR.LinkedSet_isEmpty = [ASt.retCountZero] from by decide,
+    show Gen.C09IR.LinkedSet_isFull = [ASt.retIsFull] from by decide]
+  exact canonSize_correct d hash thr m
+
+/-- LinkedSet: first / last key — `return this.header.link_X.key`;
+    in every state satisfying the invariant (`count` = length of the order list) they are the model's accessors -/
+theorem LinkedSet_ends_interp (d : Desc K V) (hash : K → Nat) (thr : Nat → Nat) (m : LMap K V) (hc : m.count = m.order.length) :
+    runA hash Gen.C09IR.LinkedSet_firstKey m = some (LMap.step hash thr d m .firstKey).2 ∧
+    runA hash Gen.C09IR.LinkedSet_lastKey m = some (LMap.step hash thr d m .lastKey).2 := by
+  have hk := canonEnd_correct d hash thr false m hc
+  rw [show Gen.C09IR.LinkedSet_firstKey = canonEnd false (.retEndKey .front) from by decide,
+    show Gen.C09IR.LinkedSet_lastKey = canonEnd false (.retEndKey .back) from by decide]
+  exact ⟨hk.1, hk.2.1⟩
+
+/-- IntLinkedSet.Size / IsEmpty / IsFull: `return this.count`, `return this.count == 0`, `return this.max > 0 && this.max <= this.count` -/
+theorem IntLinkedSet_size_interp (d : Desc K V) (hash : K → Nat) (thr : Nat → Nat) (m : LMap K V) :
+    runA hash Gen.C09IR.IntLinkedSet_size m = some (LMap.step hash thr d m .size).2 ∧
+    runA hash Gen.C09IR.IntLinkedSet_isEmpty m = some (LMap.step hash thr d m .isEmpty).2 ∧
+    runA hash Gen.C09IR.IntLinkedSet_isFull m = some (LMap.step hash thr d m .isFull).2 := by
+  rw [show Gen.C09IR.IntLinkedSet_size = [ASt.retCount] from by decide, show Gen.C09IR.IntLinkedSet_isEmpty = [ASt.retCountZero] from by decide,
+    show Gen.C09IR.IntLinkedSet_isFull = [ASt.retIsFull] from by decide]
+  exact canonSize_correct d hash thr m
+
+/-- IntLinkedSet: first / last key — `return this.header.link_X.key`;
+    in every state satisfying the invariant (`count` = length of the order list) they are the model's accessors -/
+theorem IntLinkedSet_ends_interp (d : Desc K V) (hash : K → Nat) (thr : Nat → Nat) (m : LMap K V) (hc : m.count = m.order.length) :
+    runA hash Gen.C09IR.IntLinkedSet_firstKey m = some (LMap.step hash thr d m .firstKey).2 ∧
+    runA hash Gen.C09IR.IntLinkedSet_lastKey m = some (LMap.step hash thr d m .lastKey).2 := by
+  have hk := canonEnd_correct d hash thr false m hc
+  rw [show Gen.C09IR.IntLinkedSet_firstKey = canonEnd false (.retEndKey .front) from by decide,
+    show Gen.C09IR.IntLinkedSet_lastKey = canonEnd false (.retEndKey .back) from by decide]
+  exact ⟨hk.1, hk.2.1⟩
+
+/-- StringLinkedSet.Size / IsEmpty / IsFull: `return this.count`, `return this.count == 0`, `return this.max > 0 && this.max <= this.count` -/
+theorem StringLinkedSet_size_interp (d : Desc K V) (hash : K → Nat) (thr : Nat → Nat) (m : LMap K V) :
+    runA hash Gen.C09IR.StringLinkedSet_size m = some (LMap.step hash thr d m .size).2 ∧
+    runA hash Gen.C09IR.StringLinkedSet_isEmpty m = some (LMap.step hash thr d m .isEmpty).2 ∧
+    runA hash Gen.C09IR.StringLinkedSet_isFull m = some (LMap.step hash thr d m .isFull).2 := by
+  rw [show Gen.C09IR.StringLinkedSet_size = [ASt.retCount] from by decide, show Gen.C09IR.StringLinkedSet_isEmpty = [ASt.retCountZero] from by decide,
+    show Gen.C09IR.StringLinkedSet_isFull = [ASt.retIsFull] from by decide]
+  exact canonSize_correct d hash thr m
+
+/-- StringLinkedSet: first / last key — `return this.header.link_X.key`;
+    in every state satisfying the invariant (`count` = length of the order list) they are the model's accessors -/
+theorem StringLinkedSet_ends_interp (d : Desc K V) (hash : K → Nat) (thr : Nat → Nat) (m : LMap K V) (hc : m.count = m.order.length) :
+    runA hash Gen.C09IR.StringLinkedSet_firstKey m = some (LMap.step hash thr d m .firstKey).2 ∧
+    runA hash Gen.C09IR.StringLinkedSet_lastKey m = some (LMap.step hash thr d m .lastKey).2 := by
+  have hk := canonEnd_correct d hash thr false m hc
+  rw [show Gen.C09IR.StringLinkedSet_firstKey = canonEnd false (.retEndKey .front) from by decide,
+    show Gen.C09IR.StringLinkedSet_lastKey = canonEnd false (.retEndKey .back) from by decide]
+  exact ⟨hk.1, hk.2.1⟩
+
+
+/-! ### enumerator objects: every HasMoreElements / Next* method of every enumerator type, statement by statement -/
+
+/-- the enumerator objects of LinkedMap: each `HasMoreElements` is `LEnum.hasMore` (and changes nothing), each `Next*` is `LEnum.next`
+    (the element under the cursor, cursor moved to `link_next`; "exhausted" exactly when the cursor is at the header) -/
+theorem LinkedMap_enum_interp (e : LEnum K) :
+    Gen.C09IR.LinkedMap_enumHasMore ≠ [] ∧ Gen.C09IR.LinkedMap_enumNext ≠ [] ∧
+    (∀ l ∈ Gen.C09IR.LinkedMap_enumHasMore, runEL l e = some (e, .hasMore e.hasMore)) ∧
+    (∀ l ∈ Gen.C09IR.LinkedMap_enumNext, runEL l e =
+      match e.next with
+      | some (k, e') => some (e', .elem k)
+      | none => some (e, .exhausted)) := by
+  refine ⟨by decide, by decide, fun l hl => ?_, fun l hl => ?_⟩
+  · rw [(by decide : ∀ l ∈ Gen.C09IR.LinkedMap_enumHasMore, l = canonHasMoreL) l hl]; exact canonHasMoreL_correct e
+  · exact canonNextL_correct l ((by decide : ∀ l ∈ Gen.C09IR.LinkedMap_enumNext, l = canonNextL ∨ l = [ESt.retNextElement]) l hl) e
+
+/-- the enumerator objects of IntKeyLinkedMap: each `HasMoreElements` is `LEnum.hasMore` (and changes nothing), each `Next*` is `LEnum.next`
+    (the element under the cursor, cursor moved to `link_next`; "exhausted" exactly when the cursor is at the header) -/
+theorem IntKeyLinkedMap_enum_interp (e : LEnum K) :
+    Gen.C09IR.IntKeyLinkedMap_enumHasMore ≠ [] ∧ Gen.C09IR.IntKeyLinkedMap_enumNext ≠ [] ∧
+    (∀ l ∈ Gen.C09IR.IntKeyLinkedMap_enumHasMore, runEL l e = some (e, .hasMore e.hasMore)) ∧
+    (∀ l ∈ Gen.C09IR.IntKeyLinkedMap_enumNext, runEL l e =
+      match e.next with
+      | some (k, e') => some (e', .elem k)
+      | none => some (e, .exhausted)) := by
+  refine ⟨by decide, by decide, fun l hl => ?_, fun l hl => ?_⟩
+  · rw [(by decide : ∀ l ∈ Gen.C09IR.IntKeyLinkedMap_enumHasMore, l = canonHasMoreL) l hl]; exact canonHasMoreL_correct e
+  · exact canonNextL_correct l ((by decide : ∀ l ∈ Gen.C09IR.IntKeyLinkedMap_enumNext, l = canonNextL ∨ l = [ESt.retNextElement]) l hl) e
+
+/-- the enumerator objects of LongKeyLinkedMap: each `HasMoreElements` is `LEnum.hasMore` (and changes nothing), each `Next*` is `LEnum.next`
+    (the element under the cursor, cursor moved to `link_next`; "exhausted" exactly when the cursor is at the header) -/
+theorem LongKeyLinkedMap_enum_interp (e : LEnum K) :
+    Gen.C09IR.LongKeyLinkedMap_enumHasMore ≠ [] ∧ Gen.C09IR.LongKeyLinkedMap_enumNext ≠ [] ∧
+    (∀ l ∈ Gen.C09IR.LongKeyLinkedMap_enumHasMore, runEL l e = some (e, .hasMore e.hasMore)) ∧
+    (∀ l ∈ Gen.C09IR.LongKeyLinkedMap_enumNext, runEL l e =
+      match e.next with
+      | some (k, e') => some (e', .elem k)
+      | none => some (e, .exhausted)) := by
+  refine ⟨by decide, by decide, fun l hl => ?_, fun l hl => ?_⟩
+  · rw [(by decide : ∀ l ∈ Gen.C09IR.LongKeyLinkedMap_enumHasMore, l = canonHasMoreL) l hl]; exact canonHasMoreL_correct e
+  · exact canonNextL_correct l ((by decide : ∀ l ∈ Gen.C09IR.LongKeyLinkedMap_enumNext, l = canonNextL ∨ l = [ESt.retNextElement]) l hl) e
+
+/-- the enumerator objects of StringKeyLinkedMap: each `HasMoreElements` is `LEnum.hasMore` (and changes nothing), each `Next*` is `LEnum.next`
+    (the element under the cursor, cursor moved to `link_next`; "exhausted" exactly when the cursor is at the header) -/
+theorem StringKeyLinkedMap_enum_interp (e : LEnum K) :
+    Gen.C09IR.StringKeyLinkedMap_enumHasMore ≠ [] ∧ Gen.C09IR.StringKeyLinkedMap_enumNext ≠ [] ∧
+    (∀ l ∈ Gen.C09IR.StringKeyLinkedMap_enumHasMore, runEL l e = some (e, .hasMore e.hasMore)) ∧
+    (∀ l ∈ Gen.C09IR.StringKeyLinkedMap_enumNext, runEL l e =
+      match e.next with
+      | some (k, e') => some (e', .elem k)
+      | none => some (e, .exhausted)) := by
+  refine ⟨by decide, by decide, fun l hl => ?_, fun l hl => ?_⟩
+  · rw [(by decide : ∀ l ∈ Gen.C09IR.StringKeyLinkedMap_enumHasMore, l = canonHasMoreL) l hl]; exact canonHasMoreL_correct e
+  · exact canonNextL_correct l ((by decide : ∀ l ∈ Gen.C09IR.StringKeyLinkedMap_enumNext, l = canonNextL ∨ l = [ESt.retNextElement]) l hl) e
+
+/-- the enumerator objects of IntIntLinkedMap: each `HasMoreElements` is `LEnum.hasMore` (and changes nothing), each `Next*` is `LEnum.next`
+    (the element under the cursor, cursor moved to `link_next`; "exhausted" exactly when the cursor is at the header) -/
+theorem IntIntLinkedMap_enum_interp (e : LEnum K) :
+    Gen.C09IR.IntIntLinkedMap_enumHasMore ≠ [] ∧ Gen.C09IR.IntIntLinkedMap_enumNext ≠ [] ∧
+    (∀ l ∈ Gen.C09IR.IntIntLinkedMap_enumHasMore, runEL l e = some (e, .hasMore e.hasMore)) ∧
+    (∀ l ∈ Gen.C09IR.IntIntLinkedMap_enumNext, runEL l e =
+      match e.next with
+      | some (k, e') => some (e', .elem k)
+      | none => some (e, .exhausted)) := by
+  refine ⟨by decide, by decide, fun l hl => ?_, fun l hl => ?_⟩
+  · rw [(by decide : ∀ l ∈ Gen.C09IR.IntIntLinkedMap_enumHasMore, l = canonHasMoreL) l hl]; exact canonHasMoreL_correct e
+  · exact canonNextL_correct l ((by decide : ∀ l ∈ Gen.C09IR.IntIntLinkedMap_enumNext, l = canonNextL ∨ l = [ESt.retNextElement]) l hl) e
+
+/-- the enumerator objects of IntFloatLinkedMap: each `HasMoreElements` is `LEnum.hasMore` (and changes nothing), each `Next*` is `LEnum.next`
+    (the element under the cursor, cursor moved to `link_next`; "exhausted" exactly when the cursor is at the header) -/
+theorem IntFloatLinkedMap_enum_interp (e : LEnum K) :
+    Gen.C09IR.IntFloatLinkedMap_enumHasMore ≠ [] ∧ Gen.C09IR.IntFloatLinkedMap_enumNext ≠ [] ∧
+    (∀ l ∈ Gen.C09IR.IntFloatLinkedMap_enumHasMore, runEL l e = some (e, .hasMore e.hasMore)) ∧
+    (∀ l ∈ Gen.C09IR.IntFloatLinkedMap_enumNext, runEL l e =
+      match e.next with
+      | some (k, e') => some (e', .elem k)
+      | none => some (e, .exhausted)) := by
+  refine ⟨by decide, by decide, fun l hl => ?_, fun l hl => ?_⟩
+  · rw [(by decide : ∀ l ∈ Gen.C09IR.IntFloatLinkedMap_enumHasMore, l = canonHasMoreL) l hl]; exact canonHasMoreL_correct e
+  · exact canonNextL_correct l ((by decide : ∀ l ∈ Gen.C09IR.IntFloatLinkedMap_enumNext, l = canonNextL ∨ l = [ESt.retNextElement]) l hl) e
+
+/-- the enumerator objects of LongFloatLinkedMap: each `HasMoreElements` is `LEnum.hasMore` (and changes nothing), each `Next*` is `LEnum.next`
+    (the element under the cursor, cursor moved to `link_next`; "exhausted" exactly when the cursor is at the header) -/
+theorem LongFloatLinkedMap_enum_interp (e : LEnum K) :
+    Gen.C09IR.LongFloatLinkedMap_enumHasMore ≠ [] ∧ Gen.C09IR.LongFloatLinkedMap_enumNext ≠ [] ∧
+    (∀ l ∈ Gen.C09IR.LongFloatLinkedMap_enumHasMore, runEL l e = some (e, .hasMore e.hasMore)) ∧
+    (∀ l ∈ Gen.C09IR.LongFloatLinkedMap_enumNext, runEL l e =
+      match e.next with
+      | some (k, e') => some (e', .elem k)
+      | none => some (e, .exhausted)) := by
+  refine ⟨by decide, by decide, fun l hl => ?_, fun l hl => ?_⟩
+  · rw [(by decide : ∀ l ∈ Gen.C09IR.LongFloatLinkedMap_enumHasMore, l = canonHasMoreL) l hl]; exact canonHasMoreL_correct e
+  · exact canonNextL_correct l ((by decide : ∀ l ∈ Gen.C09IR.LongFloatLinkedMap_enumNext, l = canonNextL ∨ l = [ESt.retNextElement]) l hl) e
+
+/-- the enumerator objects of LongLongLinkedMap: each `HasMoreElements` is `LEnum.hasMore` (and changes nothing), each `Next*` is `LEnum.next`
+    (the element under the cursor, cursor moved to `link_next`; "exhausted" exactly when the cursor is at the header) -/
+theorem LongLongLinkedMap_enum_interp (e : LEnum K) :
+    Gen.C09IR.LongLongLinkedMap_enumHasMore ≠ [] ∧ Gen.C09IR.LongLongLinkedMap_enumNext ≠ [] ∧
+    (∀ l ∈ Gen.C09IR.LongLongLinkedMap_enumHasMore, runEL l e = some (e, .hasMore e.hasMore)) ∧
+    (∀ l ∈ Gen.C09IR.LongLongLinkedMap_enumNext, runEL l e =
+      match e.next with
+      | some (k, e') => some (e', .elem k)
+      | none => some (e, .exhausted)) := by
+  refine ⟨by decide, by decide, fun l hl => ?_, fun l hl => ?_⟩
+  · rw [(by decide : ∀ l ∈ Gen.C09IR.LongLongLinkedMap_enumHasMore, l = canonHasMoreL) l hl]; exact canonHasMoreL_correct e
+  · exact canonNextL_correct l ((by decide : ∀ l ∈ Gen.C09IR.LongLongLinkedMap_enumNext, l = canonNextL ∨ l = [ESt.retNextElement]) l hl) e
+
+/-- the enumerator objects of StringIntLinkedMap: each `HasMoreElements` is `LEnum.hasMore` (and changes nothing), each `Next*` is `LEnum.next`
+    (the element under the cursor, cursor moved to `link_next`; "exhausted" exactly when the cursor is at the header) -/
+theorem StringIntLinkedMap_enum_interp (e : LEnum K) :
+    Gen.C09IR.StringIntLinkedMap_enumHasMore ≠ [] ∧ Gen.C09IR.StringIntLinkedMap_enumNext ≠ [] ∧
+    (∀ l ∈ Gen.C09IR.StringIntLinkedMap_enumHasMore, runEL l e = some (e, .hasMore e.hasMore)) ∧
+    (∀ l ∈ Gen.C09IR.StringIntLinkedMap_enumNext, runEL l e =
+      match e.next with
+      | some (k, e') => some (e', .elem k)
+      | none => some (e, .exhausted)) := by
+  refine ⟨by decide, by decide, fun l hl => ?_, fun l hl => ?_⟩
+  · rw [(by decide : ∀ l ∈ Gen.C09IR.StringIntLinkedMap_enumHasMore, l = canonHasMoreL) l hl]; exact canonHasMoreL_correct e
+  · exact canonNextL_correct l ((by decide : ∀ l ∈ Gen.C09IR.StringIntLinkedMap_enumNext, l = canonNextL ∨ l = [ESt.retNextElement]) l hl) e
+
+/-- the enumerator objects of StringLongLinkedMap: each `HasMoreElements` is `LEnum.hasMore` (and changes nothing), each `Next*` is `LEnum.next`
+    (the element under the cursor, cursor moved to `link_next`; "exhausted" exactly when the cursor is at the header) -/
+theorem StringLongLinkedMap_enum_interp (e : LEnum K) :
+    Gen.C09IR.StringLongLinkedMap_enumHasMore ≠ [] ∧ Gen.C09IR.StringLongLinkedMap_enumNext ≠ [] ∧
+    (∀ l ∈ Gen.C09IR.StringLongLinkedMap_enumHasMore, runEL l e = some (e, .hasMore e.hasMore)) ∧
+    (∀ l ∈ Gen.C09IR.StringLongLinkedMap_enumNext, runEL l e =
+      match e.next with
+      | some (k, e') => some (e', .elem k)
+      | none => some (e, .exhausted)) := by
+  refine ⟨by decide, by decide, fun l hl => ?_, fun l hl => ?_⟩
+  · rw [(by decide : ∀ l ∈ Gen.C09IR.StringLongLinkedMap_enumHasMore, l = canonHasMoreL) l hl]; exact canonHasMoreL_correct e
+  · exact canonNextL_correct l ((by decide : ∀ l ∈ Gen.C09IR.StringLongLinkedMap_enumNext, l = canonNextL ∨ l = [ESt.retNextElement]) l hl) e
+
+/-- the enumerator objects of LinkedSet: each `HasMoreElements` is `LEnum.hasMore` (and changes nothing), each `Next*` is `LEnum.next`
+    (the element under the cursor, cursor moved to `link_next`; "exhausted" exactly when the cursor is at the header) -/
+theorem LinkedSet_enum_interp (e : LEnum K) :
+    Gen.C09IR.LinkedSet_enumHasMore ≠ [] ∧ Gen.C09IR.LinkedSet_enumNext ≠ [] ∧
+    (∀ l ∈ Gen.C09IR.LinkedSet_enumHasMore, runEL l e = some (e, .hasMore e.hasMore)) ∧
+    (∀ l ∈ Gen.C09IR.LinkedSet_enumNext, runEL l e =
+      match e.next with
+      | some (k, e') => some (e', .elem k)
+      | none => some (e, .exhausted)) := by
+  refine ⟨by decide, by decide, fun l hl => ?_, fun l hl => ?_⟩
+  · rw [(by decide : ∀ l ∈ Gen.C09IR.LinkedSet_enumHasMore, l = canonHasMoreL) l hl]; exact canonHasMoreL_correct e
+  · exact canonNextL_correct l ((by decide : ∀ l ∈ Gen.C09IR.LinkedSet_enumNext, l = canonNextL ∨ l = [ESt.retNextElement]) l hl) e
+
+/-- the enumerator objects of IntLinkedSet: each `HasMoreElements` is `LEnum.hasMore` (and changes nothing), each `Next*` is `LEnum.next`
+    (the element under the cursor, cursor moved to `link_next`; "exhausted" exactly when the cursor is at the header) -/
+theorem IntLinkedSet_enum_interp (e : LEnum K) :
+    Gen.C09IR.IntLinkedSet_enumHasMore ≠ [] ∧ Gen.C09IR.IntLinkedSet_enumNext ≠ [] ∧
+    (∀ l ∈ Gen.C09IR.IntLinkedSet_enumHasMore, runEL l e = some (e, .hasMore e.hasMore)) ∧
+    (∀ l ∈ Gen.C09IR.IntLinkedSet_enumNext, runEL l e =
+      match e.next with
+      | some (k, e') => some (e', .elem k)
+      | none => some (e, .exhausted)) := by
+  refine ⟨by decide, by decide, fun l hl => ?_, fun l hl => ?_⟩
+  · rw [(by decide : ∀ l ∈ Gen.C09IR.IntLinkedSet_enumHasMore, l = canonHasMoreL) l hl]; exact canonHasMoreL_correct e
+  · exact canonNextL_correct l ((by decide : ∀ l ∈ Gen.C09IR.IntLinkedSet_enumNext, l = canonNextL ∨ l = [ESt.retNextElement]) l hl) e
+
+/-- the enumerator objects of StringLinkedSet: each `HasMoreElements` is `LEnum.hasMore` (and changes nothing), each `Next*` is `LEnum.next`
+    (the element under the cursor, cursor moved to `link_next`; "exhausted" exactly when the cursor is at the header) -/
+theorem StringLinkedSet_enum_interp (e : LEnum K) :
+    Gen.C09IR.StringLinkedSet_enumHasMore ≠ [] ∧ Gen.C09IR.StringLinkedSet_enumNext ≠ [] ∧
+    (∀ l ∈ Gen.C09IR.StringLinkedSet_enumHasMore, runEL l e = some (e, .hasMore e.hasMore)) ∧
+    (∀ l ∈ Gen.C09IR.StringLinkedSet_enumNext, runEL l e =
+      match e.next with
+      | some (k, e') => some (e', .elem k)
+      | none => some (e, .exhausted)) := by
+  refine ⟨by decide, by decide, fun l hl => ?_, fun l hl => ?_⟩
+  · rw [(by decide : ∀ l ∈ Gen.C09IR.StringLinkedSet_enumHasMore, l = canonHasMoreL) l hl]; exact canonHasMoreL_correct e
+  · exact canonNextL_correct l ((by decide : ∀ l ∈ Gen.C09IR.StringLinkedSet_enumNext, l = canonNextL ∨ l = [ESt.retNextElement]) l hl) e
+
 end interpreted2
 
 end C09Gen
